@@ -94,6 +94,10 @@ def _run_case(case):
     want = x690.der(T, v)
     if not ir.same(T, x690.read(T, want), v):
         raise harness.HarnessError('reference DER does not read back: %s' % ir.jdump(case)[:300])
+    if case.get('ber_first'):
+        # (the order in which a process uses the three codecs is not the library's business: here BER and CER go first)
+        lib.encode('BER', obj, defMode=defMode, maxChunkSize=chunk)
+        lib.encode('CER', obj)
     e = lib.encode('DER', obj)
     if not e.ok:
         F('der', 'raises', e.brief(), e.sig)
@@ -163,6 +167,8 @@ def run_shard(desc, seed, tier, col):
         case = {'T': T, 'v': v, 'mode': list(mode)}
         if pref is not None and 'REAL' in ir.kinds_in(T):
             case['real_pref'] = pref
+        if pref in (None, 8) and len(ir.jdump(v)) % 2:
+            case['ber_first'] = True
         col.case({'T': T, 'v': v, 'm': list(mode)}, nontrivial(T, v), features(T, v, mode),
                  sample={'type': ir.show_type(T), 'value': absval.short(v, 200), 'ber_mode': list(mode),
                          'reference_der': x690.der(T, v).hex()[:120]})
